@@ -1,4 +1,5 @@
 import HappyModel.C06.Spec
+import HappyProofs.C06.WindowInv
 /-!
 "Active at step k" (activated and not yet deactivated among the first k processed events) read as a
 *time window*: in a schedule ordered by time, a window whose activation was processed at time `s`
@@ -15,11 +16,11 @@ def NoDeact (f : Nat) (l : List Pop) : Prop := ∀ t, Pop.fault t f false ∉ l
 
 /-- no `Network.heal_partition()` call can end window `f` early (vacuous unless `f` is a partition) -/
 def Clear (fs : List Fault) (f : Nat) (l : List Pop) : Prop :=
-  isPartF fs f = true → ∀ t, Pop.healall t ∉ l
+  isPartF fs f = true → ∀ t k, Pop.healall t k ∉ l
 
 theorem clear_tail {fs : List Fault} {f : Nat} {p : Pop} {rest : List Pop}
     (h : Clear fs f (p :: rest)) : Clear fs f rest :=
-  fun hp t hm => h hp t (List.mem_cons_of_mem _ hm)
+  fun hp t k hm => h hp t k (List.mem_cons_of_mem _ hm)
 
 theorem mem_active_iff (fs : List Fault) (f : Nat) : ∀ (l : List Pop) (ever act : List Nat),
     wfFrom fs ever act l = true → (∀ x, x ∈ act → x ∈ ever) → act.Nodup → Clear fs f l →
@@ -88,18 +89,18 @@ theorem mem_active_iff (fs : List Fault) (f : Nat) : ∀ (l : List Pop) (ever ac
             simp [ActIn]
           have m1 : f ∈ act.erase g ↔ f ∈ act := List.mem_erase_of_ne hfg
           simp [nd1, a1, m1]
-    | healall t =>
+    | healall t k =>
       simp only [wfFrom] at hwf
-      have hnp : isPartF fs f = false := by
-        cases hp : isPartF fs f with
+      have hnp : partOnF fs k f = false := by
+        cases hp : partOnF fs k f with
         | false => rfl
-        | true => exact absurd (List.mem_cons_self ..) (hcl hp t)
-      have ih := mem_active_iff fs f rest ever (act.filter fun x => !isPartF fs x) hwf
+        | true => exact absurd (List.mem_cons_self ..) (hcl (partOnF_isPartF fs k f hp) t k)
+      have ih := mem_active_iff fs f rest ever (act.filter fun x => !partOnF fs k x) hwf
         (fun x hx => hsub x (List.mem_filter.mp hx).1)
         (List.Nodup.sublist List.filter_sublist nd) hcl'
       simp only [List.foldl_cons, actStep]
       rw [ih]
-      have m1 : f ∈ act.filter (fun x => !isPartF fs x) ↔ f ∈ act := by
+      have m1 : f ∈ act.filter (fun x => !partOnF fs k x) ↔ f ∈ act := by
         simp [List.mem_filter, hnp]
       simp [m1, NoDeact, ActIn]
     | cancel t g =>
@@ -153,7 +154,7 @@ theorem active_of_inside (fs : List Fault) (tr : List Pop) (k : Nat) (p : Pop) (
     (hact : Pop.fault s f true ∈ tr) (h1 : s < p.time)
     (h2 : ∀ r, Pop.fault r f false ∈ tr → p.time < r) :
     f ∈ activeAfter fs (tr.take k) := by
-  have hclk : Clear fs f (tr.take k) := fun hpf t hm => hcl hpf t (List.mem_of_mem_take hm)
+  have hclk : Clear fs f (tr.take k) := fun hpf t k' hm => hcl hpf t k' (List.mem_of_mem_take hm)
   obtain ⟨rest, hsplit⟩ := split_at tr k p hp
   have hpw : (tr.take k ++ p :: rest).Pairwise (fun p q => p.time ≤ q.time) := hsplit ▸ hs
   obtain ⟨_, hright, hcross⟩ := List.pairwise_append.mp hpw
@@ -194,7 +195,7 @@ theorem inside_of_active (fs : List Fault) (tr : List Pop) (k : Nat) (p : Pop) (
   have hpw : (tr.take k ++ p :: rest).Pairwise (fun p q => p.time ≤ q.time) := hsplit ▸ hs
   obtain ⟨_, hright, hcross⟩ := List.pairwise_append.mp hpw
   have hpr := (List.pairwise_cons.mp hright).1
-  have hclk : Clear fs f (tr.take k) := fun hpf t hm => hcl hpf t (List.mem_of_mem_take hm)
+  have hclk : Clear fs f (tr.take k) := fun hpf t k' hm => hcl hpf t k' (List.mem_of_mem_take hm)
   have hm := (mem_active_iff fs f (tr.take k) [] [] (wf_take fs tr [] [] k hwf) (by simp)
     List.nodup_nil hclk).mp hact
   rcases hm with ⟨h, _⟩ | ⟨_, ⟨s, hs'⟩, hN⟩
@@ -208,5 +209,70 @@ theorem inside_of_active (fs : List Fault) (tr : List Pop) (k : Nat) (p : Pop) (
       · rcases List.mem_cons.mp h with h | h
         · rw [← h]; exact Nat.le_refl _
         · exact hpr _ h
+
+/-! ### windows are `[s, r)` when fault boundaries come first at their instant
+
+`FaultSchedule.start` gives the fault events the smallest tie-breaking indices, so at an instant the
+engine (C01: time order, FIFO by index among equal times) processes the starts and ends of windows
+before every other event.  For the event `p` processed at step `k` that is what `hb1` / `hb2` say;
+`ht1` / `ht2`: fault events carry their configured times. -/
+
+/-- an active window has started (`s ≤` now) and its end is still ahead (now `< r`) -/
+theorem in_window_of_active (fs : List Fault) (tr : List Pop) (k : Nat) (p : Pop) (f s : Nat)
+    (r : Option Nat) (hwf : WF fs tr) (hs : Sorted tr) (hcl : Clear fs f tr) (hp : tr[k]? = some p)
+    (ht1 : ∀ t, Pop.fault t f true ∈ tr → t = s)
+    (hb2 : ∀ r', r = some r' → r' ≤ p.time → Pop.fault r' f false ∈ tr.take k)
+    (hact : f ∈ activeAfter fs (tr.take k)) :
+    s ≤ p.time ∧ ∀ r', r = some r' → p.time < r' := by
+  obtain ⟨rest, hsplit⟩ := split_at tr k p hp
+  have hpw : (tr.take k ++ p :: rest).Pairwise (fun p q => p.time ≤ q.time) := hsplit ▸ hs
+  obtain ⟨_, _, hcross⟩ := List.pairwise_append.mp hpw
+  have hclk : Clear fs f (tr.take k) := fun hpf t k' hm => hcl hpf t k' (List.mem_of_mem_take hm)
+  have hm := (mem_active_iff fs f (tr.take k) [] [] (wf_take fs tr [] [] k hwf) (by simp)
+    List.nodup_nil hclk).mp hact
+  rcases hm with ⟨h, _⟩ | ⟨_, ⟨t, ht⟩, hN⟩
+  · simp at h
+  · have hts : t = s := ht1 t (List.mem_of_mem_take ht)
+    have hle := hcross _ ht p (List.mem_cons_self ..)
+    have e : (Pop.fault t f true).time = t := rfl
+    rw [e, hts] at hle
+    refine ⟨hle, fun r' hr' => ?_⟩
+    rcases Nat.lt_or_ge p.time r' with h | h
+    · exact h
+    · exact absurd (hb2 r' hr' h) (hN r')
+
+/-- a window that has started and whose end is still ahead is active -/
+theorem active_of_in_window (fs : List Fault) (tr : List Pop) (k : Nat) (p : Pop) (f s : Nat)
+    (r : Option Nat) (hwf : WF fs tr) (hs : Sorted tr) (hcl : Clear fs f tr) (hp : tr[k]? = some p)
+    (ht2 : ∀ t, Pop.fault t f false ∈ tr → r = some t)
+    (hb1 : s ≤ p.time → Pop.fault s f true ∈ tr.take k)
+    (hin : s ≤ p.time ∧ ∀ r', r = some r' → p.time < r') :
+    f ∈ activeAfter fs (tr.take k) := by
+  obtain ⟨rest, hsplit⟩ := split_at tr k p hp
+  have hpw : (tr.take k ++ p :: rest).Pairwise (fun p q => p.time ≤ q.time) := hsplit ▸ hs
+  obtain ⟨_, _, hcross⟩ := List.pairwise_append.mp hpw
+  have hclk : Clear fs f (tr.take k) := fun hpf t k' hm => hcl hpf t k' (List.mem_of_mem_take hm)
+  have hA : ActIn f (tr.take k) := ⟨s, hb1 hin.1⟩
+  have hN : NoDeact f (tr.take k) := by
+    intro t hm
+    have hr := ht2 t (List.mem_of_mem_take hm)
+    have hlt := hin.2 t hr
+    have hle := hcross _ hm p (List.mem_cons_self ..)
+    have e : (Pop.fault t f false).time = t := rfl
+    rw [e] at hle; omega
+  exact (mem_active_iff fs f (tr.take k) [] [] (wf_take fs tr [] [] k hwf) (by simp) List.nodup_nil
+    hclk).mpr (Or.inr ⟨by simp, hA, hN⟩)
+
+/-- **active_iff_in_window** — when an event that is not a fault boundary is processed at time `t`,
+    a scheduled window `[s, r)` is active iff `s ≤ t < r` (`r = none`: iff `s ≤ t`) -/
+theorem active_iff_in_window (fs : List Fault) (tr : List Pop) (k : Nat) (p : Pop) (f s : Nat)
+    (r : Option Nat) (hwf : WF fs tr) (hs : Sorted tr) (hcl : Clear fs f tr) (hp : tr[k]? = some p)
+    (ht1 : ∀ t, Pop.fault t f true ∈ tr → t = s)
+    (ht2 : ∀ t, Pop.fault t f false ∈ tr → r = some t)
+    (hb1 : s ≤ p.time → Pop.fault s f true ∈ tr.take k)
+    (hb2 : ∀ r', r = some r' → r' ≤ p.time → Pop.fault r' f false ∈ tr.take k) :
+    f ∈ activeAfter fs (tr.take k) ↔ (s ≤ p.time ∧ ∀ r', r = some r' → p.time < r') :=
+  ⟨in_window_of_active fs tr k p f s r hwf hs hcl hp ht1 hb2,
+   active_of_in_window fs tr k p f s r hwf hs hcl hp ht2 hb1⟩
 
 end HappyModel.C06
